@@ -299,6 +299,16 @@ func init() {
 		},
 	}
 	kept := corpus.Addresses()
+	// spellings of the special arguments that only agree with the plain ones
+	// after percent-decoding, in several positions of the query
+	for _, base := range []string{"https://example.com/foo", "https://example.com/d/foo//sub", "http::https://example.com/foo"} {
+		for _, q := range []string{"archive=tar%2Egz", "%61rchive=tar.gz", "archive=%74ar.gz", "archive=t%67z", "archive=tar.gz&x=1", "x=1&archive=tar.gz", "x=1&archive=tar%2egz&y=2", "archive=TGZ", "archive=tar.gz&archive=tar%2Egz", "%61rchive=tgz&archive=tgz", "archive=tgz&checksum=md5:0123", "archive=tar.gz&%63hecksum=x", "x=1&archive=tgz&checksum=", "archive=tgz&Checksum=x"} {
+			kept = append(kept, base+"?"+q)
+		}
+	}
+	for _, q := range []string{"ref=a&ref=b", "%72ef=x", "ref=x&%72ef=y", "ref=x&depth=1", "r%65f=x&sshkey=k", "ref=", "REF=x"} {
+		kept = append(kept, "git::https://example.com/r.git?"+q, "github.com/o/r//sub?"+q)
+	}
 	distilled := &fw.Phase{
 		Name: "fuzz-distilled-inputs", Exhaustive: true,
 		N: func(string) int { return len(kept) },
